@@ -4,6 +4,7 @@
 //! the library's own helpers (a change of `expr_has_unique_constraint` must not widen what is excused).
 use qrlew::expr::{aggregate::Aggregate, function::Function, Expr};
 use qrlew::relation::{JoinOperator, Relation, Variant as _};
+use qrlew::data_type::DataTyped as _;
 use std::collections::BTreeSet;
 
 fn conjuncts(e: &Expr, out: &mut Vec<Expr>) {
@@ -143,6 +144,13 @@ pub fn features(r: &Relation) -> Vec<String> {
                 }
                 if red.aggregate().iter().any(|a| matches!(a.aggregate(), Aggregate::CountDistinct | Aggregate::SumDistinct | Aggregate::MeanDistinct | Aggregate::VarDistinct | Aggregate::StdDistinct)) {
                     out.insert("reduce.distinct-aggregate".to_string());
+                }
+                // SUM of a nullable column: a group whose values are all NULL sums to NULL in SQL
+                if red.aggregate().iter().any(|a| {
+                    matches!(a.aggregate(), Aggregate::Sum)
+                        && a.column_name().ok().and_then(|n| red.input().schema().iter().find(|f| f.name() == n).map(|f| matches!(f.data_type(), qrlew::data_type::DataType::Optional(_)))).unwrap_or(false)
+                }) {
+                    out.insert("reduce.sum-of-nullable".to_string());
                 }
                 if red.group_by().is_empty() && red.aggregate().iter().any(|a| !matches!(a.aggregate(), Aggregate::Count | Aggregate::CountDistinct)) {
                     out.insert("reduce.ungrouped.null-on-empty-aggregate".to_string());
